@@ -274,15 +274,16 @@ theorem inv_acquireEnd (cfg : Cfg) (s : St) (p : Proc) (h : Inv cfg s)
 /-- a file is removed from the directory and every live observer is told; caches and counters are those of
     `procs'`, which agree with the old ones except possibly for `p`, whose new cache has no `f` and is
     sound on its own. -/
-theorem inv_remove (cfg : Cfg) (s : St) (f : Name) (procs' : Proc → PSt) (p : Proc) (h : Inv cfg s)
-    (hfa : f ∉ s.active)
+theorem inv_remove (cfg : Cfg) (s : St) (f : Name) (procs' : Proc → PSt) (p : Proc) (active' : List Name) (h : Inv cfg s)
+    (hA : ∀ g ∈ active', g ∈ s.active ∧ g ≠ f) (hAnd : active'.Nodup)
+    (hAipc : ∀ q g, s.ipc = some (q, g) → g ∈ active' ∧ g ≠ f)
     (hsame : ∀ q, q ≠ p → procs' q = s.procs q)
     (hp_nd : (procs' p).cache.Nodup)
     (hp_over : (procs' p).avail + (sumReq cfg.req (procs' p).cache : Nat) + (inflight cfg s p : Nat) ≥ (cfg.total : Int))
     (hp_ipc : ∀ g, s.ipc = some (p, g) → g ∉ (procs' p).cache)
     (hp_sound : (procs' p).alive = true → (procs' p).dropped = false → ∀ g ∈ (procs' p).cache, (g ≠ f ∧ g ∈ names s.disk) ∨ g = f ∨ FsEv.deleted g ∈ (procs' p).pending) :
-    Inv cfg { s with disk := rmFile f s.disk, procs := broadcast procs' (.deleted f) } := by
-  refine ⟨nodup_names_rmFile f _ h.nodupDisk, Nat.le_trans (sumReq_rmFile_le cfg.req f s.disk) h.cap, ?_, ?_, ?_, ?_, ?_, h.nodupActive⟩
+    Inv cfg { s with disk := rmFile f s.disk, procs := broadcast procs' (.deleted f), active := active' } := by
+  refine ⟨nodup_names_rmFile f _ h.nodupDisk, Nat.le_trans (sumReq_rmFile_le cfg.req f s.disk) h.cap, ?_, ?_, ?_, ?_, ?_, hAnd⟩
   · intro q; simp only [bc_cache]; by_cases hq : q = p
     · subst hq; exact hp_nd
     · rw [hsame q hq]; exact h.nodupCache q
@@ -290,8 +291,9 @@ theorem inv_remove (cfg : Cfg) (s : St) (f : Name) (procs' : Proc → PSt) (p : 
     · subst hq; exact hp_over
     · rw [hsame q hq]; exact h.over q
   · intro q g hg
-    obtain ⟨h1, h2, h3⟩ := h.ipcInv q g hg
-    refine ⟨(mem_names_rmFile f g s.disk).mpr ⟨fun e => hfa (e ▸ h2), h1⟩, h2, ?_⟩
+    obtain ⟨h1, _, h3⟩ := h.ipcInv q g hg
+    obtain ⟨h4, h5⟩ := hAipc q g hg
+    refine ⟨(mem_names_rmFile f g s.disk).mpr ⟨h5, h1⟩, h4, ?_⟩
     simp only [bc_cache]; by_cases hq : q = p
     · subst hq; exact hp_ipc g hg
     · rw [hsame q hq]; exact h3
@@ -311,18 +313,22 @@ theorem inv_remove (cfg : Cfg) (s : St) (f : Name) (procs' : Proc → PSt) (p : 
     · exact Or.inr (bc_pending_new _ _ _ ha hd)
     · exact Or.inr (bc_pending_mono _ _ _ _ h1)
   · intro g hg
-    exact (mem_names_rmFile f g s.disk).mpr ⟨fun e => hfa (e ▸ hg), h.activeDisk g hg⟩
+    obtain ⟨h1, h2⟩ := hA g hg
+    exact (mem_names_rmFile f g s.disk).mpr ⟨h2, h.activeDisk g h1⟩
 
 theorem inv_release (cfg : Cfg) (s : St) (p : Proc) (f : Name) (h : Inv cfg s)
     (en : enabled s (.release p f) = true) : Inv cfg (apply cfg s (.release p f)).1 := by
   simp only [enabled, Bool.and_eq_true, Option.isNone_iff_eq_none, Bool.not_eq_true', List.contains_eq_mem,
     decide_eq_false_iff_not] at en
-  obtain ⟨⟨hipc, hdrop⟩, hfa⟩ := en
+  obtain ⟨hipc, hdrop⟩ := en
   simp only [apply]
   split
   · rename_i hf
     simp only [recount_cache] at hf
-    apply inv_remove cfg s f _ p h hfa
+    apply inv_remove cfg s f _ p (s.active.erase f) h
+    · intro g hg; have := (h.nodupActive.mem_erase_iff).mp hg; exact ⟨this.2, this.1⟩
+    · exact h.nodupActive.erase f
+    · intro q g hg; simp [hipc] at hg
     · intro q hq; exact upd_other _ _ _ _ hq
     · simp only [upd_same, recount_cache]; exact h.nodupDisk.erase f
     · simp only [upd_same, recount_cache, recount_avail, inflight_none cfg s p hipc]
@@ -342,7 +348,10 @@ theorem inv_reclaim (cfg : Cfg) (s : St) (p : Proc) (f : Name) (h : Inv cfg s)
   obtain ⟨⟨hdrop, hw⟩, hfa⟩ := en
   simp only [apply]
   split
-  · apply inv_remove cfg s f _ p h hfa
+  · apply inv_remove cfg s f _ p s.active h
+    · intro g hg; exact ⟨hg, fun e => hfa (e ▸ hg)⟩
+    · exact h.nodupActive
+    · intro q g hg; have := (h.ipcInv q g hg).2.1; exact ⟨this, fun e => hfa (e ▸ this)⟩
     · intro q hq; exact upd_other _ _ _ _ hq
     · simp only [upd_same]; exact h.nodupCache p
     · simp only [upd_same]; exact h.over p
